@@ -56,10 +56,7 @@ func calibrate() *calibration {
 			jobs = append(jobs, job{kind: k, sink: sn, path: writeProg("cal", "sink_"+k+"_"+strings.ReplaceAll(sn, ".", "_"), op.src)})
 		}
 	}
-	var incPaths []string
-	for j := 1; j <= 4; j++ {
-		incPaths = append(incPaths, writeProg("cal", "c20_inc"+sfx(j), incFileSource(j)))
-	}
+	incPaths := writeIncFiles("cal")
 	mods := stateModules(incPaths)
 	for _, m := range mods {
 		// once, and the two most involved shapes of a repeated / nested touch
